@@ -81,6 +81,9 @@ struct Stats {
     /// per class: renderings in which the class deviated from its default
     class_exercised: BTreeMap<&'static str, u64>,
     by_part: BTreeMap<&'static str, u64>,
+    long_inputs: u64,
+    longest_input: u64,
+    largest_section: u64,
 }
 
 impl Stats {
@@ -109,6 +112,9 @@ impl Stats {
         for (k, v) in o.class_exercised {
             *self.class_exercised.entry(k).or_insert(0) += v;
         }
+        self.long_inputs += o.long_inputs;
+        self.longest_input = self.longest_input.max(o.longest_input);
+        self.largest_section = self.largest_section.max(o.largest_section);
         for (k, v) in o.by_part {
             *self.by_part.entry(k).or_insert(0) += v;
         }
@@ -143,12 +149,20 @@ enum Explore {
     Upto(usize),
     /// default spelling plus every combination of the section-merge choices
     MergeOnly,
+    /// default spelling (one section per definition) and the spelling with every possible merge taken
+    AllMerged,
 }
 
 fn vectors(sites: &[Site], how: Explore) -> Vec<Vec<usize>> {
     let n = sites.len();
     let mut out = vec![vec![]];
     match how {
+        Explore::AllMerged => {
+            let v: Vec<usize> = (0..n).map(|i| (sites[i].class == "merge") as usize).collect();
+            if v.iter().any(|&x| x != 0) {
+                out.push(v);
+            }
+        }
         Explore::MergeOnly => {
             let m: Vec<usize> = (0..n).filter(|&i| sites[i].class == "merge").collect();
             for mask in 1u32..(1 << m.len()) {
@@ -291,11 +305,19 @@ fn nontrivial(defs: &[Def]) -> bool {
 }
 
 fn check_cmap(run: &Run, part: &'static str, defs: &[Def], how: Explore, st: &mut Stats) {
-    debug_assert!(defs.iter().all(|d| d.well_formed()));
-    let inputs = inputs_for(defs);
+    check_cmap_inputs(run, part, defs, how, inputs_for(defs), st)
+}
+
+/// `inputs` must contain every code that occurs in a longer input also as a one-code input.
+fn check_cmap_inputs(run: &Run, part: &'static str, defs: &[Def], how: Explore, inputs: Vec<Input>, st: &mut Stats) {
+    if !defs.iter().all(|d| d.well_formed()) {
+        eprintln!("MACHINERY: generated an ill-formed definition in part {}", part);
+        std::process::exit(2);
+    }
     let expected: Vec<String> = inputs.iter().map(|i| rc::expected_text(defs, i).expect("inputs are mapped codes")).collect();
     let nt = nontrivial(defs);
     st.cmaps += 1;
+    st.largest_section = st.largest_section.max(defs.len() as u64);
     *st.by_part.entry(part).or_insert(0) += 1;
     if nt {
         st.cmaps_nontrivial += 1;
@@ -487,6 +509,131 @@ fn sweep(run: &Run, total: &Mutex<Stats>, part: &'static str, menu: &[Def], k: u
     });
 }
 
+/// Sections of 33, 40, 64 and 100 entries whose entries come in a deterministic shuffled order
+/// (multiplicative permutations) and re-define 1..6 codes at several distances: bfchar-only sections,
+/// bfrange-only sections with overlapping ranges, and both. The oracle is unchanged: the last
+/// definition in file order wins.
+fn large_section_cmaps() -> Vec<Vec<Def>> {
+    let tgt = |i: u32, gen: u32| -> rc::Units {
+        // pairwise different for different (i, gen); shapes rotate: one unit, two units, surrogate pair
+        match (i + gen) % 3 {
+            0 => vec![(0x0400 + 0x100 * gen + i) as u16],
+            1 => vec![0x0066, (0x2000 + 0x100 * gen + i) as u16],
+            _ => vec![0xD83D, (0xDC00 + 0x80 * gen + i) as u16],
+        }
+    };
+    let mut out = vec![];
+    for (len, base) in [(2u8, 0x0200u32), (1u8, 0x20u32)] {
+        for &n in &[33u32, 40, 64, 100] {
+            for &k in &[1u32, 7, 11, 23, 37] {
+                for redefs in 1..=6u32 {
+                    if len == 1 && (k > 11 || redefs % 2 == 0) {
+                        continue;
+                    }
+                    let m = n - redefs; // distinct codes
+                    let gcd = |mut a: u32, mut b: u32| {
+                        while b != 0 {
+                            (a, b) = (b, a % b);
+                        }
+                        a
+                    };
+                    let mut kk = k;
+                    while gcd(kk, m) != 1 {
+                        kk += 1;
+                    }
+                    let perm = |j: u32| (j * kk + 3) % m;
+                    // bfchar section
+                    let mut chars: Vec<Def> = (0..m).map(|j| Def::Char { len, code: base + perm(j), t: tgt(perm(j), 0) }).collect();
+                    // bfrange section: entry j covers 1..4 codes starting at 2*perm(j): neighbours overlap
+                    let mut ranges: Vec<Def> = (0..m)
+                        .map(|j| {
+                            let lo = base + perm(j);
+                            let span = j % 4;
+                            let hi = (lo + span).min(base + m - 1);
+                            if j % 5 == 4 {
+                                Def::Array { len, lo, hi, ts: (0..=hi - lo).map(|e| tgt(perm(j) + e, 3 + e % 2)).collect() }
+                            } else {
+                                let mut t = tgt(perm(j), 1);
+                                *t.last_mut().unwrap() &= 0xFF7F; // room for the increment in the low byte
+                                Def::Range { len, lo, hi, t }
+                            }
+                        })
+                        .collect();
+                    // re-definitions: copy q re-defines the code of entry a at distance dist after it
+                    for q in 0..redefs {
+                        let dists = [1u32, 2, 5, m / 2, m - 1, 17];
+                        let a = (q * 9 + k) % (m / 2);
+                        let at = (a + dists[((q + k) % 6) as usize]).min(chars.len() as u32 - 1) + 1;
+                        let code = chars[a as usize].lo();
+                        chars.insert(at as usize, Def::Char { len, code, t: tgt(code - base, 2 + q % 2) });
+                        let (lo, hi) = (ranges[a as usize].lo(), ranges[a as usize].hi());
+                        let mut t = tgt(lo - base, 5);
+                        *t.last_mut().unwrap() &= 0xFF7F;
+                        ranges.insert(at as usize, Def::Range { len, lo, hi, t });
+                    }
+                    match (k, redefs % 3) {
+                        (1, _) | (_, 0) => {
+                            out.push(chars.clone());
+                            out.push(ranges);
+                        }
+                        (_, 1) => out.push(chars.clone()),
+                        _ => {
+                            // both kinds in one CMap: the bfrange section first, the bfchar section re-defining on top
+                            let mut both = ranges;
+                            both.extend(chars.iter().step_by(3).cloned());
+                            out.push(both);
+                            out.push(chars.clone());
+                        }
+                    }
+                }
+            }
+        }
+    }
+    out
+}
+
+/// CMaps with a one-unit, a two-unit and a surrogate-pair target and long strings of their codes, so
+/// that a multi-unit target starts at every offset 0..=400 (and around powers of two up to 65536) of
+/// the decoded UTF-16 output. Oracle: concatenation of the per-code reference values, decoded as UTF-16.
+fn long_string_cases() -> Vec<(Vec<Def>, Vec<Input>)> {
+    let mut out = vec![];
+    for (len, b) in [(2u8, 0x0010u32), (1u8, 0x10u32), (3u8, 0x010010u32)] {
+        let defs = vec![
+            Def::Range { len, lo: b, hi: b + 1, t: rc::T_A.to_vec() },
+            Def::Char { len, code: b + 2, t: rc::T_LIG.to_vec() },
+            Def::Range { len, lo: b + 3, hi: b + 4, t: rc::T_EMO.to_vec() },
+            Def::Array { len, lo: b + 5, hi: b + 6, ts: vec![vec![0x4E2D], vec![0xD840, 0xDC3E]] },
+        ];
+        let (bmp, bmp2, lig, emo, emo2, han, sup) = ((len, b), (len, b + 1), (len, b + 2), (len, b + 3), (len, b + 4), (len, b + 5), (len, b + 6));
+        let rep = |c: (u8, u32), n: usize| -> Input { vec![c; n] };
+        let cat = |parts: &[Input]| -> Input { parts.concat() };
+        let mut inputs: Vec<Input> = rc::mapped_codes(&defs).into_iter().map(|c| vec![c]).collect();
+        let max_n = if len == 2 { 400 } else { 300 };
+        for n in 0..=max_n {
+            inputs.push(cat(&[rep(bmp, n), vec![emo]]));
+            inputs.push(cat(&[rep(bmp, n), vec![lig]]));
+            inputs.push(cat(&[rep(bmp2, n), vec![sup, han]]));
+            inputs.push(cat(&[rep(bmp, n), vec![emo2, emo, bmp2]]));
+            inputs.push(cat(&[vec![bmp], rep(lig, n), vec![emo]]));
+        }
+        for n in 1..=300 {
+            inputs.push(rep(emo, n));
+            inputs.push(cat(&[rep(lig, n), vec![emo2]]));
+        }
+        if len == 2 {
+            for p in 9..=16u32 {
+                for d in [-2i64, -1, 0, 1] {
+                    let n = ((1i64 << p) + d) as usize;
+                    inputs.push(cat(&[rep(bmp, n), vec![emo, lig, sup]]));
+                    inputs.push(rep(emo2, n / 2));
+                }
+            }
+        }
+        out.push((defs, inputs));
+    }
+    out
+}
+
 /// Hand-written CMaps at the edges of the code space of every code length.
 fn edge_cmaps() -> Vec<Vec<Def>> {
     let a = rc::T_A.to_vec();
@@ -540,6 +687,9 @@ fn stats_to_run(run: &Run, s: &Stats, menu_len: usize) {
     run.set("liberal_by_choice", Value::Object(lib));
     run.set("deviation_histogram", json!({"0": s.dev_hist[0], "1": s.dev_hist[1], "2": s.dev_hist[2]}));
     run.set("choice_classes_exercised", json!(s.class_exercised));
+    run.set("long_input_strings", json!(s.long_inputs));
+    run.set("longest_input_codes", json!(s.longest_input));
+    run.set("largest_definition_sequence", json!(s.largest_section));
     run.set("cmaps_with_known_finding", json!(s.cmaps_with_known_finding));
     run.set("deviation_renderings_repeating_a_known_finding", json!(s.known_repeated_in_deviation));
 }
@@ -603,6 +753,22 @@ fn main() {
     }
     sweep(&run, &total, "len134", &m134, 1, Explore::Upto(d), None);
     sweep(&run, &total, "len134", &m134, 2, Explore::Upto(if t { 1 } else { 0 }), None);
+    // 5. large sections: 33..100 entries in shuffled order with re-definitions inside one section
+    let large = large_section_cmaps();
+    util::par_for(large.len(), |i| {
+        let mut st = Stats::default();
+        check_cmap(&run, "large_sections", &large[i], Explore::AllMerged, &mut st);
+        total.lock().unwrap().merge(st);
+    });
+    // 6. long input strings: multi-unit targets at every offset of the decoded output
+    let long = long_string_cases();
+    util::par_for(long.len(), |i| {
+        let mut st = Stats::default();
+        st.long_inputs += long[i].1.iter().filter(|x| x.len() > 2).count() as u64;
+        st.longest_input = long[i].1.iter().map(|x| x.len() as u64).max().unwrap_or(0);
+        check_cmap_inputs(&run, "long_strings", &long[i].0, Explore::Upto(0), long[i].1.clone(), &mut st);
+        total.lock().unwrap().merge(st);
+    });
     // 4. edges of the code space
     let edges = edge_cmaps();
     util::par_for(edges.len(), |i| {
